@@ -65,13 +65,25 @@ var props = []Prop{
 	{
 		ID: "C18", Level: "model_checking",
 		Harnesses: []HSpec{
-			{Dir: "internal/pkg/input", Fn: "VF_C18_gate", MaxStrLen: [2]int{16, 16}},
+			{Dir: "internal/pkg/input", Fn: "VF_C18_gate", MaxStrLen: [2]int{16, 16}, Split: 6},
 			{Dir: "internal/pkg/input", Fn: "VF_C18_parse", MaxStrLen: [2]int{16, 16}},
 			{Dir: "internal/pkg/input", Fn: "VF_C18_skip", MaxStrLen: [2]int{16, 16}},
 		},
 		Bounds:      []string{"B and V = maj.min.patch+suffix, each numeral 0..99 canonical, suffix an ASCII [-+][0-9A-Za-z.-]* of <= 2 (quick) / 3 (thorough) characters", "arbitrary ASCII B and V of <= 5 / 7 characters for the parse and skip rules; V of every YAML scalar kind"},
 		Outside:     []string{"numerals of 3+ digits", "non-ASCII version strings (byte-level code in x/mod/semver is executed under an ASCII guard)", "main.buildVersion's stripping of the linker-provided v (one strings.TrimPrefix)"},
 		Stubs:       []string{"none: golang.org/x/mod/semver is executed as SSA"},
+		Assumptions: commonAssumptions,
+	},
+	{
+		ID: "C14", Level: "model_checking",
+		Harnesses: []HSpec{
+			{Dir: "internal/pkg/imports", Fn: "VF_C14_resolve", Perms: true, Tries: 64, Split: 6},
+			{Dir: "internal/pkg/imports", Fn: "VF_C14_names", Perms: true, Tries: 64, Split: 8},
+			{Dir: "internal/pkg/imports", Fn: "VF_C14_register"},
+		},
+		Bounds:      []string{"alias table of 2 entries (aliases in the alias grammar, paths in the import grammar), one or two references in the import grammar, all strings <= 4 (quick) / 6 (thorough) code points; every iteration order of the table's maps"},
+		Outside:     []string{"pruning of unused imports by x/tools/imports", "tables of 3+ aliases", "strings beyond the bound"},
+		Stubs:       []string{"regexp.ReplaceAllString([^a-zA-Z0-9], \"_\") -> contract derived from the pattern (DESIGN 3.5)"},
 		Assumptions: commonAssumptions,
 	},
 }
